@@ -713,6 +713,124 @@ impl C09 {
     }
 }
 
+impl C09 {
+    /// Class E: stored bytes damaged (bit flips, overwritten / deleted /
+    /// duplicated ranges, spliced-in markup), then read back under different
+    /// chunkings. Whatever the parser makes of the damaged document, it must
+    /// not panic, must not read past the document, and must make the *same*
+    /// thing of it however the bytes arrive.
+    fn class_e(
+        &self,
+        ctx: &Arc<SimCtx>,
+        doc: &Doc,
+        bytes: &Arc<Vec<u8>>,
+        counters: &mut Counters,
+        out: &mut RunOut,
+    ) -> Result<(), Violation> {
+        const SNIPPETS: [&[u8]; 12] = [
+            b"<!d[<>", b"<!DOCTYPE x [<!ENTITY a \"b\">]>", b"<![CDATA[", b"]]>", b"<!--", b"-->", b"<?x", b"?>",
+            b"&#x41;", b"&lol;", b"\"", b"<a xmlns:p=\"q\" p:r=\"s\"/>",
+        ];
+        let n_cases = if bytes.len() > 20_000 { 6 } else { 40 };
+        for _ in 0..n_cases {
+            let mut damaged = bytes.as_ref().clone();
+            let len = damaged.len();
+            if len == 0 {
+                return Ok(());
+            }
+            let what = ctx.choose(6);
+            let at = ctx.choose(len as u64) as usize;
+            match what {
+                0 => damaged[at] ^= 1 << ctx.choose(8),
+                1 => damaged[at] = *[b'<', b'>', b'&', b'"', b'\'', b'/', b'=', b' ', 0u8, 0xff, b'!', b'-', b'[', b']', b'?', b';']
+                    .get(ctx.choose(16) as usize).unwrap(),
+                2 => {
+                    let n = 1 + ctx.choose(((len - at).min(64)) as u64) as usize;
+                    damaged.drain(at..at + n);
+                }
+                3 => {
+                    let n = 1 + ctx.choose(((len - at).min(64)) as u64) as usize;
+                    let dup: Vec<u8> = damaged[at..at + n].to_vec();
+                    let to = ctx.choose(len as u64 + 1) as usize;
+                    damaged.splice(to..to, dup);
+                }
+                4 => {
+                    let snip = SNIPPETS[ctx.choose(SNIPPETS.len() as u64) as usize];
+                    damaged.splice(at..at, snip.iter().copied());
+                }
+                _ => {
+                    // a few independent bit flips
+                    for _ in 0..(2 + ctx.choose(4)) {
+                        let i = ctx.choose(len as u64) as usize;
+                        damaged[i] ^= 1 << ctx.choose(8);
+                    }
+                }
+            }
+            let damaged = Arc::new(damaged);
+            counters.bump(match what {
+                0 | 5 => "fault_stored_bit_flip",
+                1 => "fault_stored_byte_overwritten",
+                2 => "fault_stored_range_lost",
+                3 => "fault_stored_range_duplicated",
+                _ => "fault_stored_markup_spliced",
+            });
+            // reference outcome: the whole document in one chunk
+            let mut outcomes: Vec<(ReadCfg, Result<Doc, String>, u64)> = Vec::new();
+            let cfgs = {
+                let mut t = ctx.tape.lock().unwrap();
+                let small = *t.pick(&[1usize, 2, 3, 5, 8, 13]);
+                vec![
+                    ReadCfg { mode: 0, chunk_max: 1 << 20, eintr: 0, fail_at: None, bound: None },
+                    ReadCfg { mode: if damaged.len() > 20_000 { 2 } else { 1 }, chunk_max: if damaged.len() > 20_000 { 4096 } else { 1 }, eintr: 0, fail_at: None, bound: None },
+                    ReadCfg { mode: 0, chunk_max: if damaged.len() > 20_000 { 4096 } else { small }, eintr: 0, fail_at: None, bound: None },
+                    ReadCfg { mode: 2, chunk_max: *t.pick(&[7usize, 64, 1000]), eintr: if t.chance(1, 2) { 5 } else { 0 }, fail_at: None, bound: None },
+                ]
+            };
+            for rcfg in cfgs {
+                let mut r = reader(ctx, &damaged, rcfg);
+                let res = guarded("parse-damaged", || Ok(doc.parse_same(&mut r)))?;
+                if r.pulled > damaged.len() as u64 {
+                    crate::common::harness_fail("pulled more than the document holds");
+                }
+                out.evaluations += 1;
+                outcomes.push((rcfg, res, r.pulled));
+            }
+            out.sub_sigs.push(fnv(&damaged) ^ 0xE);
+            let (ref_cfg, ref_res, _) = &outcomes[0];
+            for (cfg, res, _) in &outcomes[1..] {
+                let same = match (ref_res, res) {
+                    (Ok(a), Ok(b)) => a == b,
+                    (Err(_), Err(_)) => true,
+                    _ => false,
+                };
+                if !same {
+                    let show = |r: &Result<Doc, String>| match r {
+                        Ok(d) => format!("Ok({})", d.summary()),
+                        Err(e) => format!("Err({})", e),
+                    };
+                    let lo = at.saturating_sub(30);
+                    let hi = (at + 40).min(damaged.len());
+                    return Err(Violation::new(
+                        "chunk-dependent-parse",
+                        doc.kind(),
+                        format!(
+                            "a damaged {} (kind {} at byte {}) parses as {} when read with {:?} but as {} with {:?}; bytes around the damage: {:?}",
+                            doc.kind(), what, at, show(ref_res), ref_cfg, show(res), cfg,
+                            String::from_utf8_lossy(&damaged[lo..hi])
+                        ),
+                    ));
+                }
+            }
+            match ref_res {
+                Ok(d) if d == doc => counters.bump("probe_damage_harmless"),
+                Ok(_) => counters.bump("probe_damage_changed_value"),
+                Err(_) => counters.bump("probe_damage_rejected"),
+            }
+        }
+        Ok(())
+    }
+}
+
 //------------ Class D: hostile peer -------------------------------------------------------
 
 #[derive(Clone, Copy, Debug, PartialEq, Eq)]
@@ -1014,9 +1132,10 @@ impl C09 {
                 let mut w = SimWrite::new(ctx, WriteCfg { short_writes: false, eintr: 0, fault: WriteFault::None, fault_kind: std::io::ErrorKind::Other });
                 let _ = doc.write(&mut w);
                 let clean_calls = w.calls;
-                match ctx.choose(3) {
+                match ctx.choose(4) {
                     0 => self.class_b(ctx, &doc, &bytes, counters, out)?,
                     1 => self.class_c(ctx, &doc, clean_calls, counters, out)?,
+                    2 => self.class_e(ctx, &doc, &bytes, counters, out)?,
                     _ => {
                         // hostile takeover of this very document (1 MB positions
                         // always; 100 MB positions rarely, they cost ~0.2 s)
@@ -1076,7 +1195,8 @@ impl Scenario for C09 {
          short writes where no base64 is involved) must round-trip through the owned parsers and the \
          streaming processors, then one of class B (EOF or hard read error at EVERY offset of documents \
          up to 1500 bytes, 300 sampled offsets up to 20 kB, 40 beyond), class C (one-shot or sticky write error at EVERY \
-         write call index up to 400 calls) or class D (the document taken over at a structural position \
+         write call index up to 400 calls), class E (stored bytes damaged - bit flips, overwritten, lost or \
+         duplicated ranges, spliced-in markup - then parsed under four chunkings which must all agree) or class D (the document taken over at a structural position \
          by an endless hostile run with the bytes-pulled monitor armed). The sweep walks document kind x \
          position (6) x hostile kind (17) deterministically. evaluations = parses/writes executed; \
          distinct = distinct hash of (document bytes or prefix, fault kind, fault offset, chunk size) \
@@ -1094,6 +1214,7 @@ impl Scenario for C09 {
             vec![
                 "SimWrite (short writes, EINTR, one-shot and sticky errors by call index)",
                 "SimBufRead (chunking down to 1 byte, EINTR, hard error at offset, lazily generated endless hostile streams, bytes-pulled monitor)",
+                "storage damage injector (bit flips, overwritten / lost / duplicated ranges, spliced markup) with a chunking-differential oracle",
                 "recording ProcessSnapshot/ProcessDelta implementation reading object data in tape-chosen sizes",
                 "thread-local counting allocator (peak heap per hostile case)",
             ],
